@@ -127,6 +127,21 @@ def spec_altdec(v):
     return alt, L, [["altDec", "lenDec"]]
 
 
+def spec_altdec_reflected(v):
+    """internal-generator path only: decay length = -gamma*beta_tau*c*tau0*ln(w) with w = 1 - d for the generator's draw d (uniform
+    when d is); decay altitude = altitude of the point at that distance along the emergence line"""
+    w = 1.0 - v["u"]
+    L = -v["g"] * v["bt"] * C_KM_S * TAU0 * np.log(w)
+    alt = np.sqrt(R_KM * R_KM + L * L + 2.0 * R_KM * L * np.sin(v["beta"])) - R_KM
+    return alt, L, [["altDec", "lenDec"]]
+
+
+def c_exponential_reflected(v, out):
+    """d -> length is the inverse distribution function of an exponential with mean gamma*beta*c*tau0: exp(-len/mean) == 1 - d"""
+    mean = v["g"] * v["bt"] * C_KM_S * TAU0
+    return spec.eq(np.exp(-out[1] / mean), 1.0 - v["u"], 1e-9)
+
+
 def c_len_nonneg(v, out):
     """the decay length is non-negative for u in (0,1]"""
     return out[1] >= 0.0
@@ -187,6 +202,27 @@ def monotone_lemmas(ck, fc, qn):
              clause="beta_a < beta_b  =>  f(len, beta_a) <= f(len, beta_b)  (len >= 0)")
 
 
+def _same_length_term(fc):
+    """numeric comparison (40 digits, 3 points) of the extracted lenDec term with the specification's, first return path of each"""
+    import random
+
+    from nssvc import prover
+
+    try:
+        cp = [p for p in fc.code_paths if p.kind == "return"][0]
+        sp_ = [p for p in fc.spec_paths if p.kind == "return"][0]
+        a, b = harness.term(harness.flat(cp.result)[1]), harness.term(harness.flat(sp_.result)[1])
+        rnd = random.Random(7)
+        for _ in range(3):
+            env = {s_: rnd.uniform(0.2, 0.8) for s_ in (a.free_symbols | b.free_symbols)}
+            va, vb = prover.neval(a, env), prover.neval(b, env)
+            if abs(va - vb) > 1e-20 * (1 + abs(va)):
+                return False
+        return True
+    except Exception:
+        return False
+
+
 def stage(ck, full=False):
     """function-level obligations of Taus.__call__ and EAS.altDec (C11 uses them without the lemmas)"""
     n = 5 if ck.tier == "quick" else 25
@@ -204,9 +240,23 @@ def stage(ck, full=False):
     for explicit in (True, False):
         qn = "eas:EAS.altDec[%s]" % ("explicit-u" if explicit else "generator")
         sc = Scenario(qn, build_altdec(explicit), events=ev)
-        fc = FunctionCheck(ck, qn, sc, spec_altdec, ["altDec", "lenDec", "stored_names"], rng_inputs=[] if explicit else ["u"],
-                           clauses=[("post.len_nonneg", c_len_nonneg), ("post.exponential", c_exponential), ("post.triangle", c_triangle), ("post.alt_nonneg", c_alt_nonneg)])
-        fc.explore().obligations()
+        # internal-generator path: the statement fixes the law of the decay length (exponential, = -gamma beta c tau0 ln w for a uniform w), not
+        # which uniform number of the stream is w.  For the ghost draw d of the generator both d and 1 - d are uniform, so the postcondition
+        # is "exists w in {d, 1 - d}: lenDec == -gamma beta c tau0 ln w"; the witness is chosen by evaluating the extracted term.
+        base_cl = [("post.len_nonneg", c_len_nonneg), ("post.exponential", c_exponential), ("post.triangle", c_triangle), ("post.alt_nonneg", c_alt_nonneg)]
+        refl_cl = [("post.len_nonneg", c_len_nonneg), ("post.exponential", c_exponential_reflected), ("post.triangle", c_triangle), ("post.alt_nonneg", c_alt_nonneg)]
+        variants = [("w = d", spec_altdec, base_cl)] if explicit else [("w = d", spec_altdec, base_cl), ("w = 1 - d", spec_altdec_reflected, refl_cl)]
+        fc = None
+        for vname, spec_v, cl in variants:
+            fcv = FunctionCheck(ck, qn, sc, spec_v, ["altDec", "lenDec", "stored_names"], rng_inputs=[] if explicit else ["u"], clauses=cl)
+            fcv.explore()
+            if fc is None:
+                fc = fcv
+            if len(variants) > 1 and _same_length_term(fcv):
+                fc = fcv
+                ck.notes.append("%s: the uniform number entering the logarithm is %s" % (qn, vname))
+                break
+        fc.obligations()
         if not full:
             continue
         if explicit:
